@@ -1,4 +1,5 @@
 import GoldModel.Lemmas.ExprRoundTrip
+import GoldModel.Props.C09
 import GoldModel.Lemmas.BigStepStmt
 import GoldModel.Model.Prog
 /-!
@@ -803,6 +804,7 @@ theorem rt_if (kw : Tok) (c : ε) (body : List (Stmt ε)) (tail : IfTail ε) (h 
 
 /-! ## every well-formed statement round-trips: induction over the syntax -/
 
+set_option linter.unusedSectionVars false in
 mutual
 theorem stmt_rt : (s : Stmt ε) → s.WF X → StmtRT X s
   | .assign lhs op e, h => rt_assign X hX lhs op e h
@@ -826,5 +828,280 @@ theorem tail_rt : (tl : IfTail ε) → tl.WF X → tl.AllRT X
   | .els _ body _, h => stmts_rt body h.2.1
   | .elif _ _ body tail, h => ⟨stmts_rt body h.2.2.1, tail_rt tail h.2.2.2⟩
 end
+
+/-! ## parameters -/
+
+omit hX
+
+/-- a parameter is followed by `,` or `)` -/
+def PStop (k : List Tok) : Prop := ∃ t r, k = t :: r ∧ (t.kind = Kind.Comma ∨ t.kind = Kind.CBracket)
+
+theorem PStop.fails_tok {k : List Tok} (h : PStop k) (x : Kind) (h1 : x ≠ Kind.Comma) (h2 : x ≠ Kind.CBracket) :
+    Fails (.tok x) k := by
+  obtain ⟨t, r, rfl, ht⟩ := h
+  rcases ht with ht | ht
+  · exact Fails.tok (by rw [ht]; exact fun e => h1 e.symm) (by rw [ht]; decide)
+  · exact Fails.tok (by rw [ht]; exact fun e => h2 e.symm) (by rw [ht]; decide)
+
+theorem ident_not_comment : ∀ x ∈ identKinds, x ≠ Kind.Comment := by decide +kernel
+theorem parammod_not_comment : ∀ x ∈ paramModKinds, x ≠ Kind.Comment := by decide +kernel
+
+theorem parses_param (p : Param) (h : p.WF) (k : List Tok) (hk : PStop k) : Parses gParamDecl (p.toks ++ k) k p.tree := by
+  obtain ⟨md, name, colon, ty⟩ := p
+  obtain ⟨hmd, hname, hnm, hcol, hty⟩ := h
+  simp only at hmd hname hnm hcol hty
+  have hnc := ident_not_comment _ hname
+  have htype : Parses (.prepend "Failed parsing parameter decl: " (.ref nType)) (ty :: k) k (typeBasic ty) :=
+    Parses.s_prepend (parses_type_basic ty k hty (hk.fails_tok _ (by decide) (by decide)) (hk.fails_tok _ (by decide) (by decide)))
+  have hcolon : Parses (.ifTok [Kind.Colon] (.prepend "Failed parsing parameter decl: " (.ref nType)) (.eps Tree.none))
+      (colon :: ty :: k) k (Tree.seq [.leaf colon, typeBasic ty]) :=
+    Parses.s_ifTok_hit (by rw [hcol]; decide) (by rw [hcol]; decide) htype
+  have hid : Parses gIdentToken (name :: colon :: ty :: k) (colon :: ty :: k) (.leaf name) := Parses.toks hname hnc
+  cases md with
+  | none =>
+    have hm : Parses (.opt (toks [Kind.Const, Kind.Var, Kind.InOut])) (name :: colon :: ty :: k) (name :: colon :: ty :: k) Tree.none :=
+      Parses.s_opt_none (Fails.toks hnm hnc)
+    exact (Parses.map (Parses.seqL (ParsesList.cons hm (ParsesList.cons hid (ParsesList.cons hcolon ParsesList.nil))))).s_to rfl
+  | some m =>
+    have hmk := hmd m rfl
+    have hm : Parses (.opt (toks [Kind.Const, Kind.Var, Kind.InOut])) (m :: name :: colon :: ty :: k) (name :: colon :: ty :: k) (.leaf m) :=
+      Parses.s_opt (Parses.toks hmk (parammod_not_comment _ hmk))
+    exact (Parses.map (Parses.seqL (ParsesList.cons hm (ParsesList.cons hid (ParsesList.cons hcolon ParsesList.nil))))).s_to rfl
+
+theorem Param.tree_isNone (p : Param) : p.tree.isNone = false := rfl
+
+/-- value of `, p , p …` (the `ifTok [Comma]` of the separated-list parsers) -/
+def restVal : List (Tok × Param) → Tree
+  | [] => Tree.list []
+  | (c, p) :: more => Tree.seq [.leaf c, Tree.list (p.tree :: more.map (fun cp => cp.2.tree))]
+
+theorem restVal_kids (rest : List (Tok × Param)) :
+    (if (restVal rest).kind == "#seq" then ((restVal rest).nth 1).kids else []) = rest.map (fun cp => cp.2.tree) := by
+  cases rest with
+  | nil => rfl
+  | cons cp more => obtain ⟨c, p⟩ := cp; rfl
+
+theorem recVal_eq (x : Tree) (hx : x.isNone = false) (rest : List (Tok × Param)) :
+    Tree.list ((if x.isNone then [] else [x]) ++
+      (if (restVal rest).kind == "#seq" then ((restVal rest).nth 1).kids else [])) =
+    Tree.list (x :: rest.map (fun cp => cp.2.tree)) := by
+  rw [restVal_kids, hx]; rfl
+
+theorem ctxVal_eq (x : Tree) (hx : x.isNone = false) (rest : List (Tok × Param)) :
+    (if x.isNone then Tree.list []
+     else Tree.list (x :: (if (restVal rest).kind == "#seq" then ((restVal rest).nth 1).kids else []))) =
+    Tree.list (x :: rest.map (fun cp => cp.2.tree)) := by
+  rw [restVal_kids, hx]; rfl
+
+theorem pstop_rest (rest : List (Tok × Param)) (hwf : restWF rest) (rp : Tok) (hrp : rp.kind = Kind.CBracket) (k : List Tok) :
+    PStop (restToks rest ++ rp :: k) := by
+  cases rest with
+  | nil => exact ⟨rp, k, rfl, Or.inr hrp⟩
+  | cons cp more => obtain ⟨c, p⟩ := cp; exact ⟨c, _, rfl, Or.inl hwf.1⟩
+
+theorem param_tail (rest : List (Tok × Param)) (hwf : restWF rest) (rp : Tok) (hrp : rp.kind = Kind.CBracket) (k : List Tok) :
+    Parses (.ifTok [Kind.Comma] (.ref nParamRec) (.eps (Tree.list []))) (restToks rest ++ rp :: k) (rp :: k) (restVal rest) := by
+  induction rest with
+  | nil => exact Parses.s_ifTok_miss (by rw [hrp]; decide) (by rw [hrp]; decide) Parses.eps
+  | cons cp more ih =>
+    obtain ⟨c, p⟩ := cp
+    obtain ⟨hc, hp, hmore⟩ := hwf
+    have hpar := parses_param p hp (restToks more ++ rp :: k) (pstop_rest more hmore rp hrp k)
+    obtain ⟨t, r, ht⟩ : ∃ t r, p.toks ++ (restToks more ++ rp :: k) = t :: r := by
+      obtain ⟨md, name, colon, ty⟩ := p
+      cases md <;> exact ⟨_, _, rfl⟩
+    rw [ht] at hpar
+    have hrec : Parses (.ref nParamRec) (t :: r) (rp :: k) (Tree.list (p.tree :: more.map (fun cp => cp.2.tree))) :=
+      Parses.ref (n := nParamRec) ((Parses.map (Parses.seq
+        (Parses.s_ifEof_cons (a := .tok Kind.Comma) (Parses.s_recover (m := .span) hpar)) (ih hmore))).s_to (recVal_eq p.tree rfl more))
+    have := Parses.s_ifTok_hit (ks := [Kind.Comma]) (b := .eps (Tree.list [])) (by rw [hc]; decide) (by rw [hc]; decide) hrec
+    simpa [restToks, restVal, ht] using this
+
+theorem parses_paramlist (ps : ParamList) (h : ps.WF) (k : List Tok) : Parses (.ref nParamList) (ps.toks ++ k) k ps.tree := by
+  cases ps with
+  | empty lp rp =>
+    obtain ⟨hlp, hrp⟩ := h
+    have hnc : rp.kind ≠ Kind.Comment := by rw [hrp]; decide
+    have hfail : FailsAt gParamDecl (rp :: k) (rp :: k) :=
+      FailsAt.map (FailsAt.seqL (pre := [.opt (toks [Kind.Const, Kind.Var, Kind.InOut])])
+        (ParsesList.cons (Parses.s_opt_none (Fails.toks (by rw [hrp]; decide) hnc)) ParsesList.nil)
+        (FailsAt.toks (by decide) (by rw [hrp]; decide +kernel) hnc))
+    have hlist : Parses (sepListCtx gParamDecl nParamRec) (rp :: k) (rp :: k) (Tree.list []) :=
+      (Parses.map (Parses.s_dep_no (Parses.s_recover_silent hfail) rfl)).s_to rfl
+    have hin := Parses.s_prepend (s := "Failed to parse param list decl: ")
+      (Parses.seqL (ParsesList.cons hlist (ParsesList.cons (Parses.tok hrp) ParsesList.nil)))
+    exact Parses.ref (n := nParamList) ((Parses.map (Parses.s_ifTok_hit (b := .eps Tree.none)
+      (by rw [hlp]; decide) (by rw [hlp]; decide) hin)).s_to rfl)
+  | cons lp first rest rp =>
+    obtain ⟨hlp, hf, hrest, hrp⟩ := h
+    have hpar := parses_param first hf (restToks rest ++ rp :: k) (pstop_rest rest hrest rp hrp k)
+    have htail := param_tail rest hrest rp hrp k
+    have hlist : Parses (sepListCtx gParamDecl nParamRec) (first.toks ++ (restToks rest ++ rp :: k)) (rp :: k)
+        (Tree.list (first.tree :: rest.map (fun cp => cp.2.tree))) :=
+      (Parses.map (Parses.s_dep_yes (Parses.s_recover (m := .silentAt) hpar) rfl htail)).s_to (ctxVal_eq first.tree rfl rest)
+    have hin := Parses.s_prepend (s := "Failed to parse param list decl: ")
+      (Parses.seqL (ParsesList.cons hlist (ParsesList.cons (Parses.tok hrp) ParsesList.nil)))
+    have := Parses.ref (n := nParamList) ((Parses.map (Parses.s_ifTok_hit (b := .eps Tree.none)
+      (by rw [hlp]; decide) (by rw [hlp]; decide) hin)).s_to (v' := (ParamList.cons lp first rest rp).tree) rfl)
+    simpa [ParamList.toks] using this
+
+/-- value of `parse_parameter_declaration_list` -/
+def optParamsVal : Option ParamList → Tree
+  | none => Tree.none
+  | some ps => ps.tree
+
+theorem parses_optparams (ps : Option ParamList) (h : optParamsWF ps) (k : List Tok) (hk : SStop k) :
+    Parses (.ref nParamList) (optParamsToks ps ++ k) k (optParamsVal ps) := by
+  cases ps with
+  | some p => exact parses_paramlist p h k
+  | none =>
+    cases k with
+    | nil => exact Parses.ref (n := nParamList) ((Parses.map (Parses.s_ifTok_nil Parses.eps)).s_to rfl)
+    | cons t r =>
+      have hb := hk t r rfl
+      have h1 : t.kind ≠ Kind.Comment := fun e => hb (e ▸ comment_sbad)
+      have h2 : [Kind.OBracket].contains t.kind = false := by
+        cases hc : [Kind.OBracket].contains t.kind with
+        | false => rfl
+        | true =>
+          have : t.kind = Kind.OBracket := by simpa using hc
+          exact absurd (this ▸ hb) (by decide +kernel)
+      exact Parses.ref (n := nParamList) ((Parses.map (Parses.s_ifTok_miss h1 h2 Parses.eps)).s_to rfl)
+
+/-! ## methods: header, body cut out by `take_until` and parsed on its own -/
+
+theorem termFree_of {ks : List Kind} {b : List Tok} (h : termFreeB ks b = true) : C09.TerminatorFree ks b := by
+  intro t ht
+  have := List.all_eq_true.mp h t ht
+  simpa using this
+
+/-- the value of `reslice` for a body with statements `stmts` printed as `toks` -/
+def resVal (stmts : List Tree) (toks : List Tok) (endT : Tok) : Tree :=
+  Tree.seq [(match toks with | [] => Tree.none | _ :: _ => Tree.list stmts), .leaf endT, sliceNode toks]
+
+theorem bodyNode_resVal (ss : List (Stmt ε)) (hwf : Stmts.WF X ss) (endT : Tok) (endNode : Tree) :
+    bodyNode (resVal (Stmts.trees X ss) (Stmts.toks X ss) endT) endNode = bodyTree endNode.rng (Stmts.trees X ss) := by
+  cases ss with
+  | nil => rfl
+  | cons s rest =>
+    obtain ⟨t, r, ht, _⟩ := Stmt.first X s hwf.1
+    simp only [Stmts.toks, Stmts.trees]
+    rw [ht]
+    rfl
+
+include hX in
+theorem parses_reslice (ks : List Kind) (body : List (Stmt ε)) (hwf : Stmts.WF X body)
+    (hfree : termFreeB ks (Stmts.toks X body) = true) (endT : Tok) (he : ks.contains endT.kind = true) (k : List Tok) :
+    Parses (.reslice ks (.ref nBody)) (Stmts.toks X body ++ endT :: k) k
+      (resVal (Stmts.trees X body) (Stmts.toks X body) endT) := by
+  have hsplit := C09.takeUntil_split ks (Stmts.toks X body) endT k (termFree_of hfree) he
+  have hbody := body_loop X body hwf (stmts_rt X hX body hwf)
+  cases hts : Stmts.toks X body with
+  | nil => rw [hts] at hsplit; exact (Parses.s_reslice_empty hsplit).s_to rfl
+  | cons b0 bs => rw [hts] at hsplit hbody; exact (Parses.s_reslice hsplit hbody).s_to rfl
+
+theorem parses_methodmods (B : List Tok) (h : SStop B) : Parses (.ref nMethodMods) B B (Tree.list []) := by
+  cases B with
+  | nil => exact Parses.ref (n := nMethodMods) (Parses.s_ifEof_nil Parses.eps)
+  | cons t r =>
+    have hmod : Fails gMethodModTok (t :: r) :=
+      Fails.altL (gs := [toks memberModKinds, gExternal, .tok Kind.Forward]) (by
+        intro a ha
+        simp only [List.mem_cons, List.not_mem_nil, or_false] at ha
+        rcases ha with rfl | rfl | rfl
+        · exact h.fails_toks _ (by decide +kernel)
+        · exact Fails.map (Fails.seqL (pre := []) ParsesList.nil (h.fails_tok _ (by decide +kernel)))
+        · exact h.fails_tok _ (by decide +kernel))
+    exact Parses.ref (n := nMethodMods) (Parses.s_ifEof_cons (a := .eps (Tree.list []))
+      (Parses.alt2 (Fails.map (Fails.seq1 hmod)) Parses.eps))
+
+theorem parses_methodname (name : Tok) (R : List Tok) (hn : name.kind ∈ identKinds) (hp : Fails (.tok Kind.Pound) R) :
+    Parses gMethodName (name :: R) R (terminal (.leaf name)) := by
+  have hid := parses_identifier name R hn
+  exact Parses.alt2 (Fails.map (Fails.seqL (pre := [.ref nIdentifier]) (ParsesList.cons hid ParsesList.nil) hp)) hid
+
+theorem fails_pound (ps : Option ParamList) (hps : optParamsWF ps) (B : List Tok) (hB : SStop B) :
+    Fails (.tok Kind.Pound) (optParamsToks ps ++ B) := by
+  cases ps with
+  | none => exact hB.fails_tok _ (by decide +kernel)
+  | some p =>
+    cases p with
+    | empty lp rp => exact Fails.tok (by rw [hps.1]; decide) (by rw [hps.1]; decide)
+    | cons lp first rest rp => exact Fails.tok (by rw [hps.1]; decide) (by rw [hps.1]; decide)
+
+theorem optList_params (ps : Option ParamList) : optList (optParamsVal ps) = optParamsTree ps := by
+  cases ps with
+  | none => rfl
+  | some p => cases p <;> rfl
+
+/-! ## top-level declarations -/
+
+def declStarts : List Kind := [Kind.Proc, Kind.Func, Kind.Const, Kind.Identifier, Kind.Class]
+
+/-- what may follow a declaration: the end of the file or the first token of a declaration -/
+def TStop (k : List Tok) : Prop := ∀ t r, k = t :: r → t.kind ∈ declStarts
+
+theorem TStop.nil : TStop [] := by intro t r e; cases e
+
+theorem TStop.fails_tok {k : List Tok} (h : TStop k) (x : Kind) (hx : x ∉ declStarts) : Fails (.tok x) k := by
+  cases k with
+  | nil => exact Fails.tok_nil
+  | cons t r =>
+    have hb := h t r rfl
+    exact Fails.tok (fun e => hx (e ▸ hb)) (fun e => by rw [e] at hb; revert hb; decide)
+
+theorem TStop.fails_toks {k : List Tok} (h : TStop k) (ks : List Kind) (hks : ∀ x ∈ ks, x ∉ declStarts) : Fails (toks ks) k := by
+  cases k with
+  | nil => exact Fails.toks_nil
+  | cons t r =>
+    have hb := h t r rfl
+    exact Fails.toks (fun hin => hks _ hin hb) (fun e => by rw [e] at hb; revert hb; decide)
+
+/-- the round trip of one declaration at file level -/
+def DeclRT (d : Decl ε) : Prop := ∀ k, TStop k → Parses gTopItem (d.toks X ++ k) k (d.tree X)
+
+theorem fails_gProc (t : Tok) (r : List Tok) (h : t.kind ≠ Kind.Proc) (hc : t.kind ≠ Kind.Comment) : Fails gProc (t :: r) :=
+  Fails.map (Fails.s_emit (Fails.s_dep1 (fails_kw_seqL t r _ _ h hc)))
+
+theorem fails_gFunc (t : Tok) (r : List Tok) (h : t.kind ≠ Kind.Func) (hc : t.kind ≠ Kind.Comment) : Fails gFunc (t :: r) :=
+  Fails.map (Fails.s_emit (Fails.s_dep1 (fails_kw_seqL t r _ _ h hc)))
+
+include hX
+
+theorem rt_proc (kw name : Tok) (ps : Option ParamList) (body : List (Stmt ε)) (endT : Tok)
+    (h : (Decl.proc kw name ps body endT).WF X) : DeclRT X (.proc kw name ps body endT) := by
+  intro k _
+  obtain ⟨hkw, hn, hps, hb, hfree, he⟩ := h
+  have hB : SStop (Stmts.toks X body ++ endT :: k) := sstop_stmts X body hb _ (sstop_end k (by rw [he]; decide))
+  have hhdr := Parses.seqL (ParsesList.cons (Parses.tok hkw)
+    (ParsesList.cons (parses_methodname name _ hn (fails_pound ps hps _ hB))
+      (ParsesList.cons (parses_optparams ps hps _ hB) (ParsesList.cons (parses_methodmods _ hB) ParsesList.nil))))
+  have hres := parses_reslice X hX [Kind.EndProc, Kind.End] body hb hfree endT (by rw [he]; decide) k
+  have hdep := Parses.s_dep_yes (test := fun h => hasBody (methodModsNode (h.nth 3))) hhdr rfl hres
+  have hemit := Parses.s_emit (fn := fun v =>
+        let rs := v.nth 1
+        if rs.isSome && (rs.nth 1).isNone then some ⟨((v.nth 0).nth 0).rng, "proc end token not found"⟩ else none) hdep rfl
+  have hg : Parses gProc (kw :: name :: (optParamsToks ps ++ (Stmts.toks X body ++ endT :: k))) k
+      (Decl.tree X (.proc kw name ps body endT)) :=
+    (Parses.map hemit).s_to (by
+      cases ps with
+      | none =>
+        exact congrArg (fun b => Gram.mk "proc_decl" name.value (Range.span kw.rng endT.rng)
+          ([terminal (.leaf name)] ++ [] ++ [b]) [] (some name.rng))
+          (bodyNode_resVal X body hb endT (terminal (.leaf name)))
+      | some p =>
+        cases p with
+        | empty lp rp =>
+          exact congrArg (fun b => Gram.mk "proc_decl" name.value (Range.span kw.rng endT.rng)
+            ([terminal (.leaf name)] ++ [(ParamList.empty lp rp).tree] ++ [b]) [] (some name.rng))
+            (bodyNode_resVal X body hb endT (ParamList.empty lp rp).tree)
+        | cons lp first rest rp =>
+          exact congrArg (fun b => Gram.mk "proc_decl" name.value (Range.span kw.rng endT.rng)
+            ([terminal (.leaf name)] ++ [(ParamList.cons lp first rest rp).tree] ++ [b]) [] (some name.rng))
+            (bodyNode_resVal X body hb endT (ParamList.cons lp first rest rp).tree))
+  have hfin : Parses gTopItem (kw :: name :: (optParamsToks ps ++ (Stmts.toks X body ++ endT :: k))) k _ :=
+    Parses.altL (pre := []) (post := [gFunc, gComment, gClass, gModule, gUses, gTypeDecl, gConstDecl, gGlobalVar, .ref nAnnotations])
+      (by intro a ha; cases ha) hg
+  simpa [Decl.toks] using hfin
 
 end Gold.C06
